@@ -61,22 +61,22 @@ CHECKS = {
    "DESIGN.md §6 C09"),
  "C08": ("exploration", "ENUM",
    "bounded-exhaustive enumeration of (limit, response shape, payload size) and batch layouts; differential against a server with the limit disabled; every wire frame measured",
-   "For every limit 40..260 (thorough ..330) and {1024, 65536} and each of 30 response shapes, every payload size whose unlimited reply length is within limit+-3 is requested over HTTP and WS: a fitting reply must be byte-identical to the unlimited server's, a too-big one must be -32008 with the call's id; batches of 1..4 entries with total array length limit-2..limit+2 and the adjustable entry at every position (array byte-identical or -32011); WS subscribe responses with subscription ids of controlled width; full 1-step sweep of MethodResponse::response / BatchResponseBuilder; handler log identical with and without limit.",
+   "For every limit 40..260 (thorough ..330) and {1024, 65536} and each of 30 response shapes, every payload size whose unlimited reply length is within limit+-3 is requested over HTTP and WS: a fitting reply must be byte-identical to the unlimited server's, a too-big one must be -32008 with the call's id; batches of 1..4 entries with total array length limit-2..limit+2 and the adjustable entry at every position (array byte-identical or -32011); WS subscribe responses with subscription ids of controlled width; WS unsubscribe replies sized through the request id (both handler exits); methods registered sync, async and blocking; full 1-step sweep of MethodResponse::response / BatchResponseBuilder; handler log identical with and without limit.",
    "Payload classes are the 5 listed; in-memory transports. Batches are all valid calls or contain one non-request entry (last / middle / first).",
    "DESIGN.md §6 C08"),
- "C07": ("exploration", "ENUM",
-   "bounded-exhaustive enumeration of a (request limit, response limit) x message size x padding x entry point x body framing grid, handler log as oracle",
-   "8 limit pairs incl. unequal ones x sizes limit-2..limit+2, 1.5x, 2x, 10x x 3 padding styles x {TowerService HTTP, TowerService WS, the same two with the configuration built limits-first and http_only()/ws_only() last, http::call_with_service_builder, http::call_with_service, ws::connect, Server::start over loopback TCP (HTTP with Content-Length / chunked), Server::start over loopback TCP (WebSocket)} x 6 HTTP framings (Content-Length exact/absent/lying, 1/3/many frames); the message is always a valid call, so 'processed' is observable as 'handler ran once'; over the limit => no handler, -32007 / HTTP error status and the WS connection answers a later call; a second sweep holds the request limit and varies the response limit to show independence.",
+ "C07": ("exploration", "ENUM+SCHED",
+   "bounded-exhaustive enumeration of a (request limit, response limit) x message size x padding x entry point x body framing grid, handler log as oracle; plus exhaustive schedule enumeration (controlled scheduler, stateless DFS) of oversized frames on a backlogged WebSocket connection",
+   "8 limit pairs incl. unequal ones x sizes limit-2..limit+2, 1.5x, 2x, 10x x 3 padding styles x {TowerService HTTP, TowerService WS, the same two with the configuration built limits-first and http_only()/ws_only() last, http::call_with_service_builder, http::call_with_service, ws::connect, Server::start over loopback TCP (HTTP with Content-Length / chunked), Server::start over loopback TCP (WebSocket)} x 6 HTTP framings (Content-Length exact/absent/lying, 1/3/many frames); the message is always a valid call, so 'processed' is observable as 'handler ran once'; over the limit => no handler, -32007 / HTTP error status and the WS connection answers a later call; a second sweep holds the request limit and varies the response limit to show independence. SCHED leg: one WebSocket connection with outgoing buffer capacity 1..3 whose writer task is a scheduling point; oversized frames between ordinary calls in every order of writer progress: each oversized frame is answered -32007, never dispatched, every call answered, connection stays open.",
    "WebSocket messages are single unfragmented frames.",
    "DESIGN.md §6 C07"),
  "C01": ("exploration", "ENUM",
    "bounded-exhaustive enumeration of message byte strings (request products, token strings, byte-level mutations, all short byte strings) through both transports against an independent classifier",
-   "Every distinct byte string of the stated generators (REQ product of 21 id forms x 12 methods x 11 params x 5 versions, member orders/duplicates/whitespace sub-product, all token strings of length <=5 (thorough 6) over 14 tokens, position-wise mutations of base requests, all 1- and (thorough: all) 2-byte strings, every single-byte replacement) is sent over HTTP (tower service) and over a fresh in-memory WebSocket connection followed by a sentinel call; all frames until close are collected, so 'at most one reply' is a count; replies, ids, results, invoked handlers and HTTP==WS are compared with a reference classifier written on a duplicate-preserving JSON tree.",
+   "Every distinct byte string of the stated generators (REQ product of 21 id forms x 12 methods x 11 params x 6 versions (incl. a JSON-escaped spelling of \"2.0\"), member orders/duplicates/whitespace sub-product, all token strings of length <=5 (thorough 6) over 14 tokens, position-wise mutations of base requests, all 1- and (thorough: all) 2-byte strings, every single-byte replacement) is sent over HTTP (tower service) and over a fresh in-memory WebSocket connection followed by a sentinel call; all frames until close are collected, so 'at most one reply' is a count; replies, ids, results, invoked handlers and HTTP==WS are compared with a reference classifier written on a duplicate-preserving JSON tree.",
    "Non-UTF-8 byte strings and objects with duplicate known members are judged on the weak clauses only (<=1 well-formed reply, keeps serving); messages outside the generators are not covered. The tower-service legs use in-memory duplexes; the REQ product and all token strings of length <=3 additionally travel through Server::start over loopback TCP (bare and behind the built-in RPC logger middleware) and are judged by the same classifier.",
    "DESIGN.md §6 C01"),
  "C02": ("exploration", "ENUM",
    "bounded-exhaustive enumeration of batch arrays over an entry alphabet x batch configurations x transports against a per-entry reference; all frames until close collected",
-   "All arrays of length 0..4 (thorough 5) over 13 entry kinds (incl. array-encoded request and notification), all arrays of length <=2 x every batch configuration also through Server::start over loopback TCP, all arrays of length <=3 containing a subscribe call, x {Unlimited, Disabled, Limit(0), Limit(1), Limit(2)} x {HTTP, WS}; one array with exactly the expected multiset of replies, nothing outside the array (every WebSocket frame until close is read), fixed errors -32005/-32010/-32600 with no handler run, and each call entry's reply equals its reply when sent alone.",
+   "All arrays of length 0..4 (thorough 5) over 15 entry kinds (incl. array-encoded request and notification, a call whose handler reads the request extensions), all arrays of length <=2 x every batch configuration also through Server::start over loopback TCP, all arrays of length <=3 containing a subscribe call, x {Unlimited, Disabled, Limit(0), Limit(1), Limit(2)} x {HTTP, WS}; one array with exactly the expected multiset of replies, nothing outside the array (every WebSocket frame until close is read), fixed errors -32005/-32010/-32600 with no handler run, and each call entry's reply equals its reply when sent alone.",
    "Entry kinds outside the alphabet are not covered; reply order inside the array is not demanded.",
    "DESIGN.md §6 C02"),
  "C19": ("exploration", "ENUM",
